@@ -66,7 +66,9 @@ CHECKS['C16'] = dict(
           'dates (else FinError); its first date is the unadjusted effective date; BACKWARD/FORWARD roll dates are whole '
           'multiples of the period computed from the anchor (no drift); regeneration is a fixed point when the '
           'termination date is not moved by adjustment, with a kernel-checked counterexample for the full statement '
-          '(known finding C16/regenerate-reanchors); the last date is the termination date, adjusted iff requested. The '
+          '(known finding C16/regenerate-reanchors); the last date is the termination date, adjusted iff requested; the '
+          'result is exactly the distinct dates of effective :: adjusted whole-period rolls ++ [termination] (no date lost, '
+          'none invented: generate_no_loss, body_backward_interior, body_forward_interior). The '
           'CDS premium-leg generator is modelled separately (Core/CDSAlgo): unadjusted dates are whole multiples of the '
           'period from the anchor, every payment date is the adjustment of such a roll (none lost), the last is the '
           'adjusted maturity, accrual periods chain. Tie: exact date-by-date correspondence implementation = model on '
